@@ -145,10 +145,17 @@ Definition flask_clause (dc : deco val) (env : wenv) : bool :=
                   && existsb (fun k => negb (existsb (fun p => Nat.eqb (p_name p) k) (d_params dc))) (r_json_keys rq)
      end.
 
-(* 2 = fully specified, 1 = only the gate for declared names (a name reaches a function that has no such
-   parameter), 0 = outside the statement *)
+(* 2 = fully specified, 1 = a name reaches a function that has no such parameter and no **kwargs (Python has to reject the
+   call in every return_as mode; the gate for declared names is checked on top), 0 = outside the statement *)
+(* a call the function could be given; the conditions of Spec.call_wellformed on the name self are NOT required here:
+   calls that pass self by keyword, Parameters named self ... are judged against the specification (region of the
+   open findings C12-K3 / C13-K3) *)
+Definition call_shape_ok (sg : signature val) (c : call val) : bool :=
+  Nat.leb (List.length (c_args c)) (List.length (positional_names val sg))
+  && nodup_names (map fst (combine (positional_names val sg) (c_args c) ++ c_kwargs c)).
+
 Definition domain (sg : signature val) (dc : deco val) (env : wenv) (c : call val) : Z :=
-  if negb (decl_wellformed val sg dc && call_wellformed val sg c) || flask_clause dc env then 0
+  if negb (decl_wellformed val sg dc && call_shape_ok sg c) || flask_clause dc env then 0
   else if names_fit val sg dc c then 2
   else match demanded_raises val is_none sg dc c with _ :: _ => 2 | [] => 1 end.
 
